@@ -55,13 +55,18 @@ func linkGrid(rng *rand.Rand, full bool) []attrCase {
 	for _, t := range targets {
 		pool = append(pool, [2]string{"target", t})
 	}
-	pool = append(pool, [2]string{"id", "x"})
-	// which of the two attributes the sanitiser forces are also allowed by the policy: both, rel only, target only, neither
-	allowed := [][]string{{"href", "rel", "target", "id"}, {"href", "rel", "id"}, {"href", "target", "id"}, {"href", "id"}}
+	pool = append(pool, [2]string{"id", "x"}, [2]string{"crossorigin", "use-credentials"})
+	// which of the attributes the sanitiser forces are also allowed by the policy: both of rel/target, rel only, target only, neither;
+	// then, with RequireCrossOriginAnonymous (link is both a link and a crossorigin element): crossorigin only, rel and crossorigin, neither
+	allowed := [][]string{{"href", "rel", "target", "id"}, {"href", "rel", "id"}, {"href", "target", "id"}, {"href", "id"},
+		{"href", "crossorigin", "id"}, {"href", "rel", "crossorigin", "target"}, {"href", "id"}}
 	for variant, names0 := range allowed {
 		for opts := 0; opts < 32; opts++ {
 			ops := []Op{{Kind: "attrs", Names: names0, Scope: "E", ScopeEls: []string{"a", "area", "link", "base", "b"}},
 				{Kind: "schemes", Names: []string{"http", "https", "mailto"}}, {Kind: "relative", B: true}}
+			if variant >= 4 {
+				ops = append(ops, Op{Kind: "crossorigin", B: true})
+			}
 			names := []string{"nofollow", "nofollowfq", "noreferrer", "noreferrerfq", "targetblank"}
 			for i, n := range names {
 				if opts&(1<<i) != 0 {
